@@ -42,8 +42,25 @@ func (vx *Vaxis) NewStyledString(s string, defaultStyle Style) *StyledString {
 				continue
 			}
 			params := strings.Split(seq, ";")
-			for _, param := range params {
-				subs := strings.Split(param, ":")
+			for i := 0; i < len(params); i++ {
+				subs := strings.Split(params[i], ":")
+				// The legacy form of the extended colors (written when
+				// VAXIS_FORCE_LEGACY_SGR is set) passes the arguments
+				// as parameters: 38;5;n or 38;2;r;g;b
+				if len(subs) == 1 && i+1 < len(params) &&
+					(subs[0] == "38" || subs[0] == "48" || subs[0] == "58") {
+					n := 0
+					switch params[i+1] {
+					case "5":
+						n = 2
+					case "2":
+						n = 4
+					}
+					if n > 0 && i+n < len(params) {
+						subs = append(subs, params[i+1:i+1+n]...)
+						i += n
+					}
+				}
 				switch subs[0] {
 				case "0":
 					style = defaultStyle
